@@ -205,7 +205,7 @@ func TestC17Stacks(t *testing.T) {
 		n := rapid.IntRange(1, 4).Draw(t, "nmw")
 		specs := make([]mwSpec, n)
 		for i := range specs {
-			specs[i] = drawSpec(t, fmt.Sprintf("mw%d.", i), limitKinds, authors)
+			specs[i] = drawSpec(t, fmt.Sprintf("mw%d.", i), append(append([]string{}, limitKinds...), "maxsubs"), authors)
 		}
 		stack := func(h mocrelay.Handler) mocrelay.Handler {
 			for i := len(specs) - 1; i >= 0; i-- {
